@@ -142,4 +142,91 @@ def uniform(repo: Repo) -> RuleRun:
 
 uniform.rule_id = "C14.UNIFORM"
 
-RULES = [edge_set, side_table, uniform]
+def face_symmetry(repo: Repo) -> RuleRun:
+    """Per-face quantities of a hexahedron must be symmetric under cyclic renumbering of the face's four
+    points: centre = average of all four, fans/angles built with np.roll - never from hand-picked corners."""
+    r = RuleRun(PROP, "C14.FACE-SYMMETRY", floor=3, what="HexCell per-face computations do not single out corners of the face")
+    hexcell = repo.cls("optimize.cell.HexCell")
+    base = repo.cls("optimize.cell.CellBase")
+    targets = [m for m in hexcell.methods.values() if m.name in ("get_side_normals", "get_inner_angles")] + [base.methods[n] for n in ("get_side_center", "get_side_points") if n in base.methods]
+    r.require(len(targets) >= 3, "HexCell.get_side_normals / get_inner_angles / CellBase.get_side_center not found")
+    for m in targets:
+        face_vars = {"side_points"}
+        for n in walk_shallow(m.node):
+            if isinstance(n, ast.Assign) and isinstance(n.targets[0], ast.Name) and isinstance(n.value, ast.Call) and (attr_chain(n.value.func) or "").endswith("get_side_points"):
+                face_vars.add(n.targets[0].id)
+        picked = []
+        for n in ast.walk(m.node):
+            if isinstance(n, ast.Subscript) and isinstance(n.value, ast.Name) and n.value.id in face_vars:
+                sl = n.slice
+                if isinstance(sl, ast.Constant) and isinstance(sl.value, int):
+                    picked.append(n)
+                elif isinstance(sl, ast.Tuple) and sl.elts and isinstance(sl.elts[0], ast.Constant) and isinstance(sl.elts[0].value, int):
+                    picked.append(n)
+        r.check(
+            not picked,
+            m,
+            "all four face points enter symmetrically",
+            f"{m.qualname} picks individual corners of the face ({', '.join(ast.unparse(x) for x in picked[:3])}): for a warped (non-planar) face the result then depends on which corner the face "
+            "numbering starts at, so the 24 rotational renumberings of one hexahedron score differently",
+            picked[0] if picked else m.node,
+            key="symmetric",
+        )
+    # the face centre is the average of the face's points
+    gsc = base.methods.get("get_side_center")
+    if gsc is not None:
+        src = ast.unparse(gsc.node)
+        r.check("np.average(self.get_side_points(i), axis=0)" in src or "np.mean(self.get_side_points(i), axis=0)" in src, gsc, "face centre = average of its points", f"CellBase.get_side_center is no longer the average of the side's points", gsc.node, key="centre")
+    return r
+
+
+face_symmetry.rule_id = "C14.FACE-SYMMETRY"
+
+
+def no_stale_cache(repo: Repo) -> RuleRun:
+    """quality is a function of the CURRENT points: either it is recomputed on every call, or every writer of
+    the point array invalidates the cache of all cells (a moved link follower changes cells far from the leader)."""
+    r = RuleRun(PROP, "C14.NO-STALE-CACHE", floor=3, what="no memoised quality without complete invalidation")
+    writers = [repo.func("optimize.grid.GridBase.update"), repo.func("optimize.smoother.SmootherBase.smooth")]
+    for qn in ("optimize.cell.CellBase.quality", "optimize.junction.Junction.quality", "optimize.grid.GridBase.quality"):
+        fn = repo.func(qn)
+        cached = []
+        for n in ast.walk(fn.node):
+            if isinstance(n, ast.Attribute) and isinstance(n.ctx, ast.Load) and isinstance(n.value, ast.Name) and n.value.id == fn.params[0] and n.attr.startswith("_") and not n.attr.startswith("__"):
+                # a private attribute that somebody assigns (a memo)
+                assigned = any(
+                    isinstance(x, (ast.Assign, ast.AnnAssign)) and any(isinstance(t, ast.Attribute) and t.attr == n.attr for t in (x.targets if isinstance(x, ast.Assign) else [x.target]))
+                    for f2 in repo.all_functions()
+                    if f2.cls is not None and (f2.cls is fn.cls or fn.cls in repo.mro(f2.cls) or f2.cls in repo.mro(fn.cls))
+                    for x in ast.walk(f2.node)
+                )
+                if assigned and any(isinstance(x, ast.Return) and any(y is n for y in ast.walk(x)) for x in ast.walk(fn.node)):
+                    cached.append(n.attr)
+        if not cached:
+            r.ok(fn, "recomputed from the current points on every call", key="cache")
+            continue
+        # complete invalidation in every writer of the point array
+        incomplete = []
+        for w in writers:
+            full = False
+            for lp in [x for x in ast.walk(w.node) if isinstance(x, ast.For)]:
+                it = attr_chain(lp.iter) or ""
+                if it.endswith(".cells") and it.split(".")[-2] in ("self", "grid") and any(isinstance(y, ast.Call) and isinstance(y.func, ast.Attribute) and y.func.attr.startswith(("reset", "invalidate", "clear")) or (isinstance(y, ast.Assign) and any(isinstance(t, ast.Attribute) and t.attr in cached for t in y.targets)) for y in ast.walk(lp)):
+                    full = True
+            if not full:
+                incomplete.append(w.qualname)
+        r.check(
+            not incomplete,
+            fn,
+            f"cache {cached} invalidated for all cells by every writer of the points",
+            f"{fn.qualname} returns the memoised value {cached}, but {incomplete} change(s) the point array without invalidating the cache of ALL cells: a cell around a moved link follower "
+            "keeps reporting the quality of its old shape",
+            fn.node,
+            key="cache",
+        )
+    return r
+
+
+no_stale_cache.rule_id = "C14.NO-STALE-CACHE"
+
+RULES = [edge_set, side_table, uniform, face_symmetry, no_stale_cache]
